@@ -255,7 +255,7 @@ def declarations():
     d('width:50%', 'width', ['50%'], (_num('50', '%'),))
     d('z-index:1', 'z-index', ['1'], (_num('1'),))
     d('content:"s"', 'content', [Str('s')], (('string', 's'),))
-    d('background:url(u)', 'background', [Word('url', esc=False), '(', Gap('O', comment=False), 'u', Gap('O', comment=False), ')'], (('url', 'u'),))
+    d('background:url(u)', 'background', [Word('url', simple=True), '(', Gap('O', comment=False), 'u', Gap('O', comment=False), ')'], (('url', 'u'),))
     d('color:#f00', 'color', ['#f00'], (('color', 255, 0, 0, 1.0),))
     d('color:rgb(1,2,3)', 'color', [Word('rgb', simple=False), '(', O(), '1', O(), ',', O(), '2', O(), ',', O(), '3', O(), ')'], (('color', 1, 2, 3, 1.0),))
     d('x:f(1,a)', 'x', [Word('f', simple=False), '(', O(), '1', O(), ',', O(), 'a', O(), ')'], (('func', 'f(', (_num('1'), ('op', ','), ('ident', 'a'))),))
@@ -375,7 +375,7 @@ def import_rule(href, form='string', media=(), name=None):
     if form == 'string':
         pieces.append(Str(href))
     else:
-        pieces += [Word('url', esc=False), '(', Gap('O', comment=False), href, Gap('O', comment=False), ')']
+        pieces += [Word('url', simple=True), '(', Gap('O', comment=False), href, Gap('O', comment=False), ')']
     me = (('all',),)  # an empty media list means 'all'
     if media:
         mp, me = media_list(media)
@@ -395,7 +395,7 @@ def namespace_rule(prefix, uri, form='string'):
     if form == 'string':
         pieces.append(Str(uri))
     else:
-        pieces += [Word('url', esc=False), '(', uri, ')']
+        pieces += [Word('url', simple=True), '(', uri, ')']
     pieces += [O(), ';']
     return Node(pieces, ('namespace', prefix, uri), needs_ns=False, kind='namespace')
 
